@@ -440,7 +440,7 @@ Proof.
       cbn [is_nil] in Ev1. destruct (list_eqb (c :: r) (e_mark e1)); discriminate.
     + destruct (e_reval e1) eqn:Er; [discriminate|]. intros H. injection H as <- _.
       exists hi. split; [exact Hsrc|]. rewrite <- Hmk, <- Hk. split; [reflexivity|].
-      intros Hs. rewrite Hk, Hs in Hrv. rewrite Er in Hrv. discriminate.
+      intros Hs. rewrite <- Hk, Hs in Hrv. cbn in Hrv. discriminate.
     + (* VARY_OTHER is impossible on a non-empty request mark *)
       exfalso. unfold vary_evaluate_match in Ev1. rewrite Hev in Ev1. cbn [negb orb] in Ev1.
       destruct (is_nil (e_mark e1)) eqn:En; [destruct (e_mark e1); [contradiction|discriminate]|].
@@ -470,7 +470,7 @@ Proof.
     set (st2 := match lookup st1 [] with None => put st1 [] (marker vv) | Some _ => st1 end).
     assert (H2 : inv vv (hist ++ [hs]) st2).
     { unfold st2. destruct (lookup st1 []); [exact H1|]. apply inv_put; [exact H1|]. right. left. now repeat split. }
-    assert (Hkey : (if is_nil (if changed then [] else rm) then make_mark vv hs else (if changed then [] else rm)) = make_mark vv hs).
+    match goal with |- inv _ _ (put _ ?k _) => assert (Hkey : k = make_mark vv hs) end.
     { unfold changed. destruct rm as [|c r]; cbn [is_nil negb andb]; [reflexivity|].
       destruct (list_eqb (c :: r) (make_mark vv hs)) eqn:El; cbn [negb is_nil]; [|reflexivity].
       now apply list_eqb_eq in El. }
@@ -494,12 +494,12 @@ Proof.
   induction todo as [|hs todo IH]; intros hist st Hinv j i hj Hsrc Hreq Hne; [discriminate|].
   cbn [run] in Hsrc. destruct (process st vv hs (lenN hist)) as [src st'] eqn:Ep.
   destruct (N.eq_dec j 0) as [->|Hj].
-  - rewrite nthN_0 in Hsrc, Hreq. injection Hsrc as ->. injection Hreq as ->.
+  - rewrite nthN_0 in Hsrc. rewrite nthN_0 in Hreq. injection Hsrc as ->. injection Hreq as ->.
     unfold process in Ep. destruct (cache_hit 3 st [] hj) as [[e|e| |] m] eqn:Ec;
       try (injection Ep as <- _; rewrite N.add_0_r in Hne; contradiction).
     injection Ep as <- _. destruct (cache_hit_sound vv hist st hj e m Hinv Ec) as (hi & H1 & H2 & H3).
     exists hi. split; [now apply nthN_app_l|]. split; [apply nthN_lt in H1; lia|]. now split.
-  - rewrite nthN_S in Hsrc, Hreq by exact Hj.
+  - rewrite nthN_S in Hsrc by exact Hj. rewrite nthN_S in Hreq by exact Hj.
     assert (Hinv' : inv vv (hist ++ [hs]) st').
     { unfold process in Ep. destruct (cache_hit 3 st [] hs) as [[e|e| |] m];
         injection Ep as _ <-; try apply store_reply_inv; try exact Hinv. now apply inv_mono. }
